@@ -75,6 +75,9 @@ type c10Net struct {
 
 type c10PodSpec struct {
 	Nets []c10Net `json:"nets"`
+	// NoAnno: the pod does not carry the k8s.aliyun.com/pod-eni annotation; it is served only
+	// in CRD mode or on a node in exclusive ENI mode (node-2)
+	NoAnno bool `json:"noanno,omitempty"`
 }
 
 type c10Mid struct {
@@ -84,7 +87,7 @@ type c10Mid struct {
 }
 
 type c10Op struct {
-	K        string  `json:"k"` // create delete exit gone rpod reni gccr gcsec gcmem
+	K        string  `json:"k"` // create delete exit gone nodegone nodeback rpod reni gccr gcsec gcmem
 	P        int     `json:"p,omitempty"`
 	N        int     `json:"n,omitempty"`
 	CF       uint16  `json:"cf,omitempty"`
@@ -212,6 +215,7 @@ type c10World struct {
 	pods      []c10PodState
 	nt        bool
 	noGuard   bool
+	nodeTmpl  []*corev1.Node
 	callMark  int
 	faulted   bool // some step of the history had an injected fault
 	closed    bool // closed-loop scenario (no seeds): oracle (5) and end-state oracles apply
@@ -282,6 +286,7 @@ func c10NewWorld(c *vt.Ctx, s c10Scenario) *c10World {
 				Created: w.start.Add(-time.Hour).UTC().Format(c10Layout)})
 		}
 		objs = append(objs, n)
+		w.nodeTmpl = append(w.nodeTmpl, n.DeepCopy())
 		cache.LoadOrStore(n.Name, status.NewNodeStatus(cards))
 	}
 	w.base = fake.NewClientBuilder().WithScheme(types.Scheme).WithStatusSubresource(&v1beta1.PodENI{}).WithObjects(objs...).Build()
@@ -642,6 +647,14 @@ func c10TagString(tags []ecs.Tag) string {
 
 // ---------------------------------------------------------------- pod lifecycle (the harness plays kubelet/user)
 
+func (w *c10World) getPodByName(name string) *corev1.Pod {
+	p := &corev1.Pod{}
+	if err := w.base.Get(context.Background(), k8stypes.NamespacedName{Namespace: c10NS, Name: name}, p); err != nil {
+		return nil
+	}
+	return p
+}
+
 func (w *c10World) getPod(i int) *corev1.Pod {
 	p := &corev1.Pod{}
 	if err := w.base.Get(context.Background(), k8stypes.NamespacedName{Namespace: c10NS, Name: c10PodName(i)}, p); err != nil {
@@ -666,6 +679,44 @@ func (w *c10World) netsJSON(nets []c10Net) string {
 }
 
 func (w *c10World) newPod(i, node int, uid string, nets []c10Net) *corev1.Pod {
+	p := w.newPodAnno(i, node, uid, nets)
+	if i < len(w.s.Pods) && w.s.Pods[i].NoAnno {
+		delete(p.Annotations, types.PodENI)
+	}
+	return p
+}
+
+// nodeOp removes a Node object (node re-registration, kubectl delete node) or puts it back.
+func (w *c10World) nodeOp(k string, n int) {
+	ctx := context.Background()
+	n = ((n % c10Nodes) + c10Nodes) % c10Nodes
+	cur := &corev1.Node{}
+	err := w.base.Get(ctx, k8stypes.NamespacedName{Name: c10NodeName(n)}, cur)
+	switch {
+	case k == "nodegone" && err == nil:
+		if err := w.base.Delete(ctx, cur); err != nil {
+			panic(err)
+		}
+		w.c.Trace("  node object %s removed", c10NodeName(n))
+		w.c.Label("node-object-missing")
+	case k == "nodeback" && err != nil:
+		if err := w.base.Create(ctx, w.nodeTmpl[n].DeepCopy()); err != nil {
+			panic(err)
+		}
+		w.c.Trace("  node object %s registered again", c10NodeName(n))
+	default:
+		w.c.Label("skip:" + k)
+	}
+}
+
+// managed reports whether the controllers are responsible for the pod at all: CRD mode, the
+// pod-eni annotation, or a node in exclusive ENI mode (judged from the harness' own node
+// table, i.e. also while the Node object is momentarily missing)
+func (w *c10World) managed(pod *corev1.Pod) bool {
+	return w.s.CRD || types.PodUseENI(pod) || pod.Spec.NodeName == c10NodeName(2)
+}
+
+func (w *c10World) newPodAnno(i, node int, uid string, nets []c10Net) *corev1.Pod {
 	return &corev1.Pod{
 		ObjectMeta: metav1.ObjectMeta{Namespace: c10NS, Name: c10PodName(i), UID: k8stypes.UID(uid), Finalizers: []string{c10Finalizer},
 			Annotations: map[string]string{types.PodENI: "true", types.PodNetworks: w.netsJSON(nets)}},
@@ -806,7 +857,7 @@ func (w *c10World) preGC() map[string]c10Pre {
 		pr := c10Pre{snap: c10SnapOf(r)}
 		pod := &corev1.Pod{}
 		if err := w.base.Get(context.Background(), k8stypes.NamespacedName{Namespace: r.Namespace, Name: r.Name}, pod); err == nil {
-			pr.alive = !c10Exited(pod)
+			pr.alive = !c10Exited(pod) && w.managed(pod)
 			pr.uidEq = string(pod.UID) == pr.snap.UID
 		}
 		out[r.Name] = pr
@@ -885,6 +936,9 @@ func (w *c10World) runOp(i int, op c10Op) {
 	case "create", "delete", "exit", "gone":
 		w.cloud.beginStep(i, 0, nil)
 		w.podOp(op.K, op.P, op.N)
+	case "nodegone", "nodeback":
+		w.cloud.beginStep(i, 0, nil)
+		w.nodeOp(op.K, op.N)
 	case "rpod", "reni", "gccr", "gcsec", "gcmem":
 		if (op.K == "rpod" || op.K == "reni") && (op.P < 0 || op.P >= len(w.pods)) {
 			return
@@ -929,6 +983,20 @@ func (w *c10World) runOp(i int, op c10Op) {
 		var pre map[string]c10Pre
 		if op.K == "gccr" {
 			pre = w.preGC()
+			// evidence: a collector pass over a bound record of a running pod whose Node object is missing
+			for name, pr := range pre {
+				if pr.alive && pr.uidEq && pr.snap.Phase == "Bind" {
+					if pod := w.getPodByName(name); pod != nil {
+						n := &corev1.Node{}
+						if err := w.base.Get(context.Background(), k8stypes.NamespacedName{Name: pod.Spec.NodeName}, n); err != nil {
+							w.c.Label("gccr:bound-pod-node-object-missing")
+							if !types.PodUseENI(pod) && !w.s.CRD {
+								w.c.Label("gccr:bound-unannotated-pod-node-object-missing")
+							}
+						}
+					}
+				}
+			}
 		}
 		t0 := time.Now()
 		w.reconcile(op.K, op.P)
@@ -1080,7 +1148,13 @@ func c10OursTags() []ecs.Tag {
 // ---------------------------------------------------------------- settle and end-state oracles (C10 3, C11 a)
 
 func (w *c10World) settle(rounds int) {
-	w.c.Trace("settle: faults off, %d rounds of (pod, pod-eni) per name", rounds)
+	w.c.Trace("settle: faults off, node objects back, %d rounds of (pod, pod-eni) per name", rounds)
+	for n := 0; n < c10Nodes; n++ {
+		cur := &corev1.Node{}
+		if err := w.base.Get(context.Background(), k8stypes.NamespacedName{Name: c10NodeName(n)}, cur); err != nil {
+			w.nodeOp("nodeback", n)
+		}
+	}
 	w.cloud.mu.Lock()
 	w.cloud.nthFail = map[string]bool{}
 	w.cloud.mu.Unlock()
@@ -1128,6 +1202,10 @@ func (w *c10World) endState() {
 			// C11 (a): the running fixed-IP pod is bound, with the interface and address of its first incarnation
 			if !rec.Present {
 				w.c.Label("end:fixed-alive-no-record")
+				continue
+			}
+			if !w.managed(pod) {
+				w.c.Label("end:fixed-alive-unmanaged")
 				continue
 			}
 			rejected := false
